@@ -1545,7 +1545,7 @@ def _gen_abs(rng):
 def _gen_src(rng):
     if rng.random() < 0.45:
         return ["feature", rng.randrange(10**6)]
-    muts = [[rng.choice(["node", "order", "order", "delnode", "insert", "meta", "reqs", "polycall"]), rng.randrange(10**6)]
+    muts = [[rng.choice(["node", "order", "order", "delnode", "insert", "meta", "reqs", "polycall", "latecall"]), rng.randrange(10**6)]
             for _ in range(rng.randint(0, 5))]
     return ["built", rng.randrange(10**6), rng.randint(1, 4), muts]
 
